@@ -1,6 +1,6 @@
 (** * Quantify: [_quantify] / [quantify] compute existential and universal
       abstraction (C03) *)
-From DD Require Export Decor.
+From DD Require Export LevelKeys.
 
 (** assignments that agree outside the quantified levels *)
 Definition agree_off (q : gset nat) (a b : nat → bool) : Prop := ∀ j, j ∉ q → a j = b j.
@@ -427,14 +427,14 @@ Qed.
 (** ** The decorated method [quantify] *)
 
 (** with the hypothesis on the level set stated in the reordering context *)
-Theorem quantify_spec_ctx s u byname qvars fa q r s' :
+Lemma quantify_names_spec_ctx s u qvars fa q r s' :
   Inv s → valid s u → last_len s = None →
-  map_to_level_set byname qvars (s <| rctx := true |>) = (Ok q, s <| rctx := true |>) →
-  quantify u byname qvars fa s = (r, s') →
+  map_to_level_set true qvars (s <| rctx := true |>) = (Ok q, s <| rctx := true |>) →
+  quantify_names u qvars fa s = (r, s') →
   ∃ x, r = Ok x ∧ Inv s' ∧ extends s s' ∧ valid s' x ∧
        ∀ a, D s' x a = true ↔ qsem s fa q u a.
 Proof.
-  intros HI Hu Hoff Hq Hrun. unfold quantify in Hrun.
+  intros HI Hu Hoff Hq Hrun. unfold quantify_names in Hrun.
   apply try_to_reorder_inert in Hrun as (r1&s1&Hrun&Hcase).
   set (s0 := s <| rctx := true |>) in *.
   rewrite (bind_ok _ _ _ _ _ Hq) in Hrun. cbn [bind get] in Hrun.
@@ -453,6 +453,41 @@ Proof.
   destruct Hr as (Hxv&_&_&HxD).
   exists x. split; [done|split; [by apply Inv_rctx|split; [done|split; [done|]]]].
   intros a. rewrite D_rctx, HxD. apply qsem_rctx.
+Qed.
+
+(** keys given as levels: the prelude (read-only) turns them into the names
+    of the variables at these levels NOW, and these names map back to the same
+    level set *)
+Lemma quantify_levels_run s u qvars fa q sx :
+  fst (map_to_level_set false qvars sx) = Ok q → lvl2var sx = lvl2var s →
+  Forall (declared_lvl s) qvars ∧ q = list_to_set qvars ∧
+  set_Forall (declared_lvl s) q ∧
+  quantify u false qvars fa s = quantify_names u (names_at s q) fa s.
+Proof.
+  intros Hq El. rewrite map_to_level_set_false in Hq. cbn [fst] in Hq.
+  destruct (decide (Forall (declared_lvl sx) qvars)) as [Hall|]; [|done].
+  injection Hq as <-.
+  assert (Hall' : Forall (declared_lvl s) qvars).
+  { eapply Forall_impl; [exact Hall|]. intros p. unfold declared_lvl. by rewrite El. }
+  split; [done|split; [done|split]].
+  - by apply level_set_declared.
+  - rewrite quantify_levels_unfold. by rewrite decide_True.
+Qed.
+
+Theorem quantify_spec_ctx s u byname qvars fa q r s' :
+  Inv s → valid s u → last_len s = None →
+  map_to_level_set byname qvars (s <| rctx := true |>) = (Ok q, s <| rctx := true |>) →
+  quantify u byname qvars fa s = (r, s') →
+  ∃ x, r = Ok x ∧ Inv s' ∧ extends s s' ∧ valid s' x ∧
+       ∀ a, D s' x a = true ↔ qsem s fa q u a.
+Proof.
+  destruct byname; [apply quantify_names_spec_ctx|].
+  intros HI Hu Hoff Hq Hrun.
+  destruct (quantify_levels_run s u qvars fa q (s <| rctx := true |>)) as (_&_&Hd&E);
+    [by rewrite Hq|done|].
+  rewrite E in Hrun.
+  apply (quantify_names_spec_ctx s u (names_at s q) fa q r s'); try done.
+  by apply level_set_roundtrip.
 Qed.
 
 Theorem quantify_spec s u byname qvars fa q r s' :
